@@ -150,3 +150,184 @@ Proof.
 Qed.
 
 End WithCodecs.
+
+(* ---- data pages ------------------------------------------------------------------------------------ *)
+Lemma z2n_of_N why x : z2n why (Z.of_N x) = ROk x.
+Proof. unfold z2n. destruct (Z.ltb_spec (Z.of_N x) 0) as [L|L]; [lia|]. now rewrite N2Z.id. Qed.
+
+Lemma run_vals_lt w r : run_ok w r -> Forall (fun v => v < 2 ^ w) (run_vals r).
+Proof.
+  destruct r as [c v|vs]; cbn [run_ok run_vals]; intros [H1 H2].
+  - apply Forall_forall. intros x Hx. apply repeat_spec in Hx. now subst.
+  - unfold pad8. apply Forall_app. split; [exact H2|].
+    apply Forall_forall. intros x Hx.
+    assert (Z0 : forall n, Forall (fun y => y = 0) (zeros n)) by (induction n; cbn; constructor; auto).
+    specialize (Z0 (Nat.modulo (8 - Nat.modulo (length vs) 8) 8)). rewrite Forall_forall in Z0.
+    rewrite (Z0 x Hx). apply pow2_pos.
+Qed.
+
+Lemma runs_total_lt w rs : Forall (run_ok w) rs -> Forall (fun v => v < 2 ^ w) (runs_total rs).
+Proof.
+  unfold runs_total. induction 1 as [|r rs Hr Hrs IH]; cbn [map List.concat]; [constructor|].
+  apply Forall_app. split; [now apply run_vals_lt|exact IH].
+Qed.
+
+Lemma forallb_le1 l : Forall (fun v => v < 2 ^ 1) l -> forallb (fun l => l <=? 1) l = true.
+Proof.
+  intros H. apply forallb_forall. intros x Hx. rewrite Forall_forall in H. specialize (H x Hx).
+  change (2 ^ 1) with 2 in H. apply N.leb_le. lia.
+Qed.
+
+Lemma Forall_firstn {A} (P : A -> Prop) n l : Forall P l -> Forall P (firstn n l).
+Proof. intros H. apply Forall_forall. intros x Hx. rewrite Forall_forall in H. apply H. rewrite <- (firstn_skipn n l). apply in_or_app. now left. Qed.
+
+Lemma forallb_repeat0 n : forallb (fun l => l <=? 0) (repeat 0 n) = true.
+Proof. induction n; cbn; auto. Qed.
+
+(* a laid-out data page that the encoder can write for column cd *)
+Definition levels_wf (cd : coldesc) (p : lpage) : Prop :=
+  cd_maxdef cd = 0 \/
+  (cd_maxdef cd = 1 /\ Forall (run_ok 1) (lp_def p) /\ lp_nvals p <= N.of_nat (length (runs_total (lp_def p))) /\
+   lenN (hyb_enc 1 (lp_def p)) < 2 ^ 32).
+
+Definition page_wf (cd : coldesc) (p : lpage) : Prop :=
+  levels_wf cd p /\ store_wf cd (count_def (cd_maxdef cd) (page_levels cd p)) (lp_store p).
+
+Section WithCodecs2.
+Variable compress : Z -> bytes -> bytes.
+Variable decompress : Z -> N -> bytes -> option bytes.
+Hypothesis codec_rt : forall codec b, decompress codec (lenN b) (compress codec b) = Some b.
+
+Lemma page_levels_forallb cd p : levels_wf cd p ->
+  forallb (fun l => l <=? cd_maxdef cd) (page_levels cd p) = true.
+Proof.
+  intros [H0|(H1 & Hr & Hn & Hl)]; unfold page_levels; rewrite ?H0, ?H1; cbn [N.eqb Pos.eqb].
+  - rewrite repN_ok, app_nil_r. apply forallb_repeat0.
+  - rewrite takeN_ok, runs_vals_ok. apply forallb_le1. apply Forall_firstn. now apply runs_total_lt.
+Qed.
+
+Theorem data_page_v1_roundtrip strict cd codec dict p cs :
+  lp_v2 p = false -> page_wf cd p -> page_cells cd dict p = Some cs ->
+  let hp := enc_data_page compress cd codec p in
+  dec_page decompress strict cd codec dict (fst hp) (snd hp)
+  = ROk (CData (lp_nvals p) (lp_nvals p - count_def (cd_maxdef cd) (page_levels cd p)) cs).
+Proof.
+  intros V2 [LW SW] PC. unfold enc_data_page. rewrite V2. cbn zeta. cbn [fst snd].
+  unfold dec_page. cbn [ph_usize ph_body]. unfold zlen. rewrite z2n_of_N. cbn [rbind].
+  unfold dec_data_v1. cbn [d_nvals d_enc d_dle].
+  rewrite inflate_deflate by exact codec_rt. cbn [rbind].
+  rewrite N.eqb_refl. cbn [guard rbind]. rewrite z2n_of_N. cbn [rbind].
+  unfold page_cells in PC.
+  destruct (store_values cd dict (count_def (cd_maxdef cd) (page_levels cd p)) (lp_store p)) as [vs|] eqn:SV; [|discriminate].
+  pose proof (page_levels_forallb cd p LW) as FB.
+  pose proof (dec_values_ok strict cd dict _ _ vs (lp_trail p) SW SV) as DV.
+  unfold page_levels in *. destruct LW as [H0|(H1 & Hr & Hn & Hl)].
+  - rewrite H0 in *. cbn [N.eqb] in *. rewrite !app_tr_ok. cbn [app rbind fst snd].
+    rewrite FB. cbn [guard rbind]. rewrite DV. cbn [rbind]. rewrite PC. reflexivity.
+  - rewrite H1 in *. cbn [N.eqb Pos.eqb negb Z.eqb E_RLE] in *. rewrite !app_tr_ok, hyb_enc_len_x_ok.
+    change (level_width 1) with 1.
+    rewrite hyb_len_rt by assumption. cbn [of_opt rbind fst snd].
+    rewrite takeN_ok, runs_vals_ok in *.
+    rewrite FB. cbn [guard rbind]. rewrite DV. cbn [rbind]. rewrite PC. reflexivity.
+Qed.
+
+
+Lemma z2n_add why a b : z2n why (Z.of_N a + Z.of_N b) = ROk (a + b).
+Proof. rewrite <- N2Z.inj_add. apply z2n_of_N. Qed.
+
+Lemma takeN_app_exact {A} (a b : list A) : takeN (lenN a) (a ++ b) = a.
+Proof. rewrite takeN_ok, lenN_ok, Nat2N.id, firstn_app, Nat.sub_diag, firstn_all. cbn. apply app_nil_r. Qed.
+Lemma dropN_app_exact {A} (a b : list A) : dropN (lenN a) (a ++ b) = b.
+Proof. rewrite dropN_ok, lenN_ok, Nat2N.id, skipn_app, Nat.sub_diag, skipn_all. reflexivity. Qed.
+
+Theorem data_page_v2_roundtrip strict cd codec dict p cs :
+  lp_v2 p = true -> page_wf cd p -> page_cells cd dict p = Some cs ->
+  let hp := enc_data_page compress cd codec p in
+  dec_page decompress strict cd codec dict (fst hp) (snd hp)
+  = ROk (CData (lp_nvals p) (lp_nvals p - count_def (cd_maxdef cd) (page_levels cd p)) cs).
+Proof.
+  intros V2 [LW SW] PC. unfold enc_data_page. rewrite V2. cbn zeta. cbn [fst snd].
+  unfold dec_page. cbn [ph_usize ph_body]. unfold zlen. rewrite z2n_add. cbn [rbind].
+  unfold dec_data_v2. cbn [d2_nvals d2_nnulls d2_nrows d2_enc d2_dlen d2_rlen d2_iscomp].
+  rewrite !z2n_of_N. cbn [rbind]. change (z2n _ 0%Z) with (@ROk N 0). cbn [rbind N.eqb guard].
+  rewrite N.eqb_refl. cbn [guard rbind]. rewrite app_tr_ok.
+  set (lb := if cd_maxdef cd =? 0 then [] else hyb_enc_x (level_width (cd_maxdef cd)) (lp_def p)).
+  set (vb := store_bytes cd (lp_store p)).
+  set (body := if match lp_iscomp p with Some false => false | _ => true end then deflate compress codec vb else vb).
+  rewrite lenN_app.
+  destruct (N.leb_spec (lenN lb) (lenN lb + lenN body)) as [_|L]; [|lia]. cbn [guard rbind].
+  destruct (N.leb_spec (lenN lb) (lenN lb + lenN vb)) as [_|L]; [|lia]. cbn [guard rbind].
+  rewrite takeN_app_exact, dropN_app_exact.
+  replace (lenN lb + lenN vb - lenN lb) with (lenN vb) by lia.
+  assert (RAW : forall K : bytes -> rs pcontent,
+            rbind (if match lp_iscomp p with Some false => false | _ => true end
+                   then inflate decompress codec (lenN vb) body else ROk body) K = K vb).
+  { intros K. unfold body. destruct (lp_iscomp p) as [[|]|]; try reflexivity;
+      rewrite inflate_deflate by exact codec_rt; reflexivity. }
+  rewrite RAW.
+  rewrite (N.add_comm (lenN vb)), N.eqb_refl. cbn [guard rbind].
+  unfold page_cells in PC.
+  destruct (store_values cd dict (count_def (cd_maxdef cd) (page_levels cd p)) (lp_store p)) as [vs|] eqn:SV; [|discriminate].
+  pose proof (page_levels_forallb cd p LW) as FB.
+  pose proof (dec_values_ok strict cd dict _ _ vs [] SW SV) as DV. rewrite app_nil_r in DV. fold vb in DV.
+  unfold page_levels in *. destruct LW as [H0|(H1 & Hr & Hn & Hl)].
+  - unfold lb. rewrite H0 in *. cbn [N.eqb lenN fold_left guard rbind] in *.
+    rewrite FB. cbn [guard rbind]. rewrite N.eqb_refl. cbn [guard rbind].
+    rewrite DV. cbn [rbind]. rewrite PC. reflexivity.
+  - unfold lb. rewrite H1 in *. cbn [N.eqb Pos.eqb] in *. change (level_width 1) with 1.
+    rewrite hyb_enc_x_ok.
+    destruct (hyb_rt strict 1 (lp_nvals p) (lp_def p) [] Hr Hn) as (r & E). rewrite app_nil_r in E. rewrite E.
+    cbn [rbind]. rewrite takeN_ok, runs_vals_ok in *.
+    rewrite FB. cbn [guard rbind]. rewrite N.eqb_refl. cbn [guard rbind].
+    rewrite DV. cbn [rbind]. rewrite PC. reflexivity.
+Qed.
+
+
+(* ---- dictionary page, any page ------------------------------------------------------------------- *)
+Definition item_wf (cd : coldesc) (it : litem) : Prop :=
+  match it with
+  | LDict e vs => (e = E_PLAIN \/ e = E_PLAIN_DICT) /\ Forall (fun v => value_ok (cd_type cd) (cd_tlen cd) v = true) vs
+  | LData p => page_wf cd p
+  end.
+
+(* what a page contributes to the scan *)
+Definition item_content (cd : coldesc) (dict : option (list value)) (it : litem) : option pcontent :=
+  match it with
+  | LDict _ vs => Some (CDict vs)
+  | LData p => match page_cells cd dict p with
+               | Some cs => Some (CData (lp_nvals p) (lp_nvals p - count_def (cd_maxdef cd) (page_levels cd p)) cs)
+               | None => None
+               end
+  end.
+
+Theorem item_roundtrip strict cd codec dict it c :
+  item_wf cd it -> item_content cd dict it = Some c ->
+  let hp := enc_item compress cd codec it in
+  dec_page decompress strict cd codec dict (fst hp) (snd hp) = ROk c.
+Proof.
+  intros W C. destruct it as [e vs|p]; cbn [enc_item item_wf item_content] in *.
+  - injection C as <-. destruct W as [He Hv]. unfold enc_dict_page. cbn zeta. cbn [fst snd].
+    unfold dec_page. cbn [ph_usize ph_body]. unfold zlen. rewrite z2n_of_N. cbn [rbind].
+    unfold dec_dict_page. cbn [k_nvals k_enc].
+    rewrite inflate_deflate by exact codec_rt. cbn [rbind]. rewrite N.eqb_refl. cbn [guard rbind].
+    rewrite z2n_of_N. cbn [rbind].
+    assert (E : negb ((e =? E_PLAIN) || (e =? E_PLAIN_DICT))%Z = false) by (destruct He; subst; reflexivity).
+    rewrite E. rewrite lenN_ok.
+    pose proof (plain_roundtrip (cd_type cd) (cd_tlen cd) vs [] Hv) as R. rewrite app_nil_r in R. now rewrite R.
+  - destruct (page_cells cd dict p) as [cs|] eqn:PC; [|discriminate]. injection C as <-.
+    destruct (lp_v2 p) eqn:V2.
+    + now apply data_page_v2_roundtrip.
+    + now apply data_page_v1_roundtrip.
+Qed.
+
+Lemma enc_item_csize why cd codec it :
+  z2n why (ph_csize (fst (enc_item compress cd codec it))) = ROk (lenN (snd (enc_item compress cd codec it))).
+Proof.
+  destruct it as [e vs|p]; cbn [enc_item].
+  - unfold enc_dict_page. cbn zeta. cbn [fst snd ph_csize]. apply z2n_of_N.
+  - unfold enc_data_page. destruct (lp_v2 p); cbn zeta; cbn [fst snd ph_csize]; unfold zlen.
+    + rewrite z2n_add, app_tr_ok, lenN_app. reflexivity.
+    + apply z2n_of_N.
+Qed.
+
+End WithCodecs2.
